@@ -324,7 +324,7 @@ def audit(modules):
                 problems.append(f'forbidden token in {f.relative_to(LEAN)}:{i}: {line.strip()[:120]}')
     # 2. axioms of every theorem
     d = LEAN / '.audit'
-    d.mkdir(exist_ok=True)
+    d.mkdir(parents=True, exist_ok=True)
     tag = hashlib.sha1(' '.join(modules).encode()).hexdigest()[:10]
     src = d / f'Audit_{tag}.lean'
     src.write_text(AUDIT_TEMPLATE.format(
@@ -429,7 +429,7 @@ OUT = Path(os.environ.get('VERIF_OUT', str(VERIF))).resolve()   # where evidence
 
 def write_replay(pid, seed, tag, payload):
     d = OUT / 'replays'
-    d.mkdir(exist_ok=True)
+    d.mkdir(parents=True, exist_ok=True)
     f = d / f'{pid}-{seed}-{tag}.json'
     f.write_text(json.dumps(payload, indent=1, ensure_ascii=True, default=str))
     return f.relative_to(OUT) if OUT == VERIF else f
